@@ -414,8 +414,8 @@ func init() {
 				}
 				cs = append(cs, &c02Case{Main: sb.String(), Lane: "many-flag-groups"}, &c02Case{Main: "##!+ s\n" + sb.String(), Lane: "many-flag-groups"})
 				var long strings.Builder
-				for i := 0; i < 700; i++ {
-					fmt.Fprintf(&long, "longword%04dq%dz\n", i*7919%10000, i)
+				for i := 0; i < 1800; i++ {
+					fmt.Fprintf(&long, "%04dlongword%dz\n", i*7919%10000, i)
 				}
 				cs = append(cs, &c02Case{Main: long.String(), Lane: "long-expression", Update: true})
 			}
